@@ -317,10 +317,10 @@ def p_blockdiag_identities(rng: Any) -> tuple[str, list[Any]]:
             blocks.append(IdentityOperator(s))
     bd = BlockDiagonalOperator(_block_container(rng, blocks))
     st = bd.in_structure()
-    if rng.integers(2):
-        d = gen.atom(rng, st, only=('dense',))
+    if rng.integers(2) and gen.struct_eq(bd.out_structure(), st):
+        d = gen.atom(rng, st, only=('dense',))          # applied after the block-diagonal operand
         if gen.struct_eq(d.in_structure(), st):
-            return 'blockdiag_identities', [bd, d]
+            return 'blockdiag_identities', [d, bd]
     return 'blockdiag_identities', [bd]
 
 
